@@ -47,7 +47,18 @@ def write_battle(b, tag=''):
 def parse_strict(path):
     """-> (hidden as JSON through the shipped encoder, error text)"""
     import replay_parser
-    logging.disable(logging.CRITICAL)
+    import zlib
+    from .impl.play import _Discard
+    # the logging configuration is part of the environment (the CLI offers --log_level DEBUG): one battle in three is parsed with the
+    # root logger at DEBUG and a handler that formats and discards, the others with logging disabled
+    root = logging.getLogger()
+    saved = (root.level, root.handlers[:])
+    if zlib.crc32(os.path.basename(path).encode()) % 3 == 0:
+        logging.disable(logging.NOTSET)
+        root.setLevel(logging.DEBUG)
+        root.handlers = [_Discard()]
+    else:
+        logging.disable(logging.CRITICAL)
     try:
         info = replay_parser.ReplayParser(path, strict=True).get_info()
         txt = json.dumps(info, cls=replay_parser.DefaultEncoder, ensure_ascii=False)
@@ -56,3 +67,5 @@ def parse_strict(path):
         return None, traceback.format_exc().strip().split('\n')[-1][:300]
     finally:
         logging.disable(logging.NOTSET)
+        root.setLevel(saved[0])
+        root.handlers = saved[1]
